@@ -140,9 +140,12 @@ func (i *Inserter) IngestTableFromSorter(columns []string, pk []uint32) ([]byte,
 	sorterErrChan := make(chan error, 1)
 	i.blocks = i.sorter.SortedBlocks(ctx, nil, sorterErrChan)
 	sum, err := i.ingestTableFromBlocks(columns, pk)
-	close(sorterErrChan)
-	if sortErr, ok := <-sorterErrChan; ok {
+	// sorter's goroutine might still be running if insertion failed early so
+	// the channel must not be closed: it would panic when reporting its error
+	select {
+	case sortErr := <-sorterErrChan:
 		return nil, sortErr
+	default:
 	}
 	if err != nil {
 		return nil, err
